@@ -222,6 +222,21 @@ where
     }
 }
 
+#[cfg(feature = "verif-hooks")]
+impl<State, Timeline, TimelineMap> MappedTimelineAnimator<State, Timeline, TimelineMap>
+where
+    State: Clone + PartialEq,
+    Timeline: crate::timeline::Timeline,
+    Timeline::Target: Clone,
+    TimelineMap: MapLike<State, MergedTimeline<Timeline>>,
+{
+    /// Verification hook (feature `verif-hooks`): read-only snapshot of the time spent in the
+    /// current state and of the remembered interrupted animation, if any.
+    pub fn verif_snapshot(&self) -> (Duration, Option<(State, Duration)>) {
+        (self.state_duration, self.paused_animation.clone())
+    }
+}
+
 /// Converts the time spent in a state to seconds.
 ///
 /// [`Duration::as_secs_f32`] rounds the nanoseconds to `f32` precision *before* dividing, so it is
